@@ -150,6 +150,9 @@ def run_native(prop, h, cex, ob_or_none, timeout=120):
     work = tempfile.mkdtemp(prefix="verifreplay-")
     try:
         testfile = os.path.join(work, "zz_verif_replay_test.go")
+        race = ob_or_none is not None and getattr(ob_or_none, "kind", "") == "lockset" and h.get("race_driver")
+        if race:
+            fname = h["race_driver"]
         with open(testfile, "w") as f:
             if h.get("synctest"):
                 f.write("//go:build verif\n\npackage %s\n\nimport (\n\t\"testing\"\n\t\"testing/synctest\"\n)\n\nfunc TestVerifReplay(t *testing.T) {\n\tsynctest.Run(func() { %s() })\n}\n" % (pkgname, fname))
@@ -168,7 +171,7 @@ def run_native(prop, h, cex, ob_or_none, timeout=120):
             env["GOEXPERIMENT"] = "synctest"
         timeout = h.get("replay_timeout", timeout)
         binp = os.path.join(work, "replay.test")
-        cmd = ["go", "test", "-tags", "verif", "-vet=off", "-c", "-o", binp, "-overlay", ovpath, "./" + rel if rel else "."]
+        cmd = ["go", "test", "-tags", "verif", "-vet=off", "-c", "-o", binp, "-overlay", ovpath] + (["-race"] if race else []) + ["./" + rel if rel else "."]
         r = subprocess.run(cmd, cwd=REPO, env=env, capture_output=True, text=True, timeout=900)
         if r.returncode != 0 or not os.path.exists(binp):
             out = "[build failed]\n" + r.stdout + r.stderr
@@ -177,6 +180,8 @@ def run_native(prop, h, cex, ob_or_none, timeout=120):
             import resource
 
             def limits():
+                if race:
+                    return   # the race detector reserves a large address range
                 lim = int(h.get("replay_mem_gb", 6)) << 30
                 resource.setrlimit(resource.RLIMIT_AS, (lim, lim))
             try:
@@ -198,6 +203,10 @@ def run_native(prop, h, cex, ob_or_none, timeout=120):
         return None, detail, cex
     ob = ob_or_none
     kind = ob.kind
+    if kind == "lockset":
+        if not h.get("race_driver"):
+            return None, "no race driver for this harness", cex
+        return ("DATA RACE" in out), detail, cex
     if kind == "assert":
         base = ob.id.split("#")[0]
         if re.search(r"ASSERT-FAILED %s\b" % re.escape(base), out):
@@ -342,6 +351,12 @@ def main():
                     seen_keys[key] = 1
                     ok, detail, cexp = replay_native(prop, h, o, o.model, os.path.join(ROOT, "replay", pid))
                     replayed += 1
+                    if ok is False and E.ghost.get("tiebreak"):
+                        # the contract stubs leave the order of ties open: look for a tie-free counterexample
+                        m2 = solve.resolve_with(E, o, E.ghost["tiebreak"], timeout_ms=60000)
+                        if m2 is not None:
+                            ok, detail, cexp = replay_native(prop, h, o, m2, os.path.join(ROOT, "replay", pid))
+                            replayed += 1
                     if ok:
                         kn = [k for k in known if k[0] == key]
                         if kn:
